@@ -1,6 +1,7 @@
 /-
   C20 (second half, continued) — further producers of lint-clean circuits: ternary, remove_unloaded, unroll,
-  strip_blackboxes, insert_registers (and the sensitivity transforms / fully tied miters below).  Kept in a file of its
+  strip_blackboxes, insert_registers, the sensitivity transforms, fully tied miters, sequential_unroll, the composition
+  calls add_subcircuit / fill_blackbox, the bench reader and both Verilog readers.  Kept in a file of its
   own because the helper lemmas (CG/Proofs/LintProd*.lean) are stated with `C20.RegistryOK` / `C20.lint_accepts` and
   therefore import CG/Props/C20.lean.  Property theorems only.
 -/
@@ -19,6 +20,14 @@ import CG.Proofs.LintProdD6
 import CG.Proofs.LintProdDCex
 import CG.Proofs.LintProdCSensz
 import CG.Proofs.LintProdCSenC
+import CG.Props.C14
+import CG.Props.C02
+import CG.Proofs.LintProdE2
+import CG.Proofs.LintProdE4
+import CG.Proofs.LintProdECex
+import CG.Proofs.LintProdF3
+import CG.Proofs.LintProdF6
+import CG.Proofs.LintProdG3
 namespace CG.C20
 
 /-- blackbox-free circuits without dotted names have a consistent registry (restated for convenience) -/
@@ -127,6 +136,195 @@ theorem miter_tied_passes_lint (c0 c1 m : Circuit) (sp ep : List Name) (ord ord'
   obtain ⟨hcl, hnd⟩ := LintProd.miter_tied_clean h0.clean h1.clean h0.nobb h1.nobb hr0.1 hr1.1 hne hs.spNodup
     hs.epNodup hs.sp0 hs.ep0 hsp hep hall0 hall1 h
   exact lint_accepts m ord' hord' hcl (registryOK_of_noDots hnd)
+
+
+/-- **C20 (second half, sequential_unroll).** unrolling a lint-clean sequential circuit passes lint, provided the flops'
+    other output pins (neither the data output nor ignored) and the ignored output pins are unloaded (a loaded one is known
+    finding K41 / the `DroppedOutsUnloaded` condition of strip_blackboxes) and every dotted node is a pin (K47) -/
+theorem sequential_unroll_passes_lint (c : Circuit) (bb : BBox) (n : Nat) (dPort qPort : Name) (ignore : List Name) (afo : Bool)
+    (initStr : Option String) (ru : Bool) (pfx : String) (ord ord' : Ord) (hord : OrdOK ord) (hord' : OrdOK ord')
+    (hc : C09.SeqGood c bb dPort qPort) (hig : dPort ∉ ignore ∧ qPort ∉ ignore)
+    (hclash : ∀ u ∈ c.bbs, ∀ g ∈ bb.ins ++ bb.outs, g ∉ ignore → c.has (u.1 ++ "_" ++ g) = false)
+    (hinit : ∀ s, initStr = some s → s = "0" ∨ s = "1")
+    (hdots : DotsArePins c) (hpfx : hasDot pfx = false)
+    (hextra : ∀ u ∈ c.bbs, ∀ g ∈ bb.outs, g ≠ qPort → c.fanout (u.1 ++ "." ++ g) = [])
+    (uc : Circuit) (ioMap : List (Name × List Name))
+    (h : Tx.sequentialUnroll c n dPort qPort ignore afo initStr [] ru pfx ord = .ok (uc, ioMap)) :
+    lint uc {} ord' = Outcome.ok := by
+  obtain ⟨hcl, hnd⟩ := LintProdG.seq_unroll_clean hord hc.toHelper hc.pinsOwned hclash hig hinit hdots hpfx hextra h
+  exact lint_accepts uc ord' hord' hcl (registryOK_of_noDots hnd)
+
+
+/-! ### composition calls -/
+
+/-- **C20 (second half, add_subcircuit fully connected).** splicing a lint-clean child into a lint-clean parent with every
+    child input fed from exactly one parent net (not a blackbox pin) and child outputs, if connected at all, added as
+    extra operands of multi-input gates of the parent, gives a circuit that passes lint -/
+theorem add_subcircuit_passes_lint (P sc P' : Circuit) (name : Name) (conns : List (Name × List Name)) (ord : Ord)
+    (hord : OrdOK ord) (hP : LintClean P) (hrP : RegistryOK P) (hsc : LintClean sc) (hrsc : RegistryOK sc)
+    (hname : hasDot name = false) (hkeys : (conns.map (·.1)).Nodup)
+    (hin : ∀ i ∈ sc.inputs, ∃ u, (i, [u]) ∈ conns ∧ P.has u = true ∧ P.ty? u ≠ some "bb_input" ∧ P.ty? u ≠ some "bb_output")
+    (hout : ∀ q ∈ conns, q.1 ∉ sc.inputs → ∀ v ∈ q.2, ∃ t ∈ multiTypes, P.ty? v = some t)
+    (h : P.addSubcircuit sc name conns true = (P', .ok)) :
+    lint P' {} ord = Outcome.ok :=
+  LintProdE.addSub_passes_lint' P sc P' name conns ord hord hP hrP hsc hrsc hname hin h
+
+/-- the same conclusion from less: `hkeys`, `hout` and the side conditions on the driving nets are not needed (a successful
+    `connect` already refuses every wire that would break a fan-in / fan-out rule); it is enough that every child input
+    receives at least one driver -/
+theorem add_subcircuit_passes_lint_general (P sc P' : Circuit) (name : Name) (conns : List (Name × List Name)) (ord : Ord)
+    (hord : OrdOK ord) (hP : LintClean P) (hrP : RegistryOK P) (hsc : LintClean sc) (hrsc : RegistryOK sc)
+    (hname : hasDot name = false)
+    (hin : ∀ i ∈ sc.inputs, ∃ us, (i, us) ∈ conns ∧ us ≠ [])
+    (h : P.addSubcircuit sc name conns true = (P', .ok)) :
+    lint P' {} ord = Outcome.ok :=
+  LintProdE.addSub_passes_lint P sc P' name conns ord hord hP hrP hsc hrsc hname hin h
+
+/-- **C20 (second half, fill_blackbox).** the plain statement "filling an instance of a lint-clean parent with a lint-clean
+    child gives a circuit that passes lint" (with RegistryOK for both, a dot-free instance name, full attributes, child outputs
+    that are neither pins nor inputs) is refuted: `LintProdECex.cexDot` (the parent has an ordinary buffer `u.zz` named after the
+    instance `u` that is filled: it keeps its dotted name while `u` leaves the registry) and `LintProdECex.cexShared`
+    (the node `u.p.y` is pin `p.y` of the filled instance `u` and pin `y` of the instance `u.p`, which stays recorded
+    without its pin node) satisfy every hypothesis, the call succeeds, and lint rejects the result -/
+theorem fill_blackbox_passes_lint_false :
+    ¬ (∀ (P sub P' : Circuit) (inst : Name) (ord ord' : Ord), OrdOK ord → OrdOK ord' →
+      LintClean P → RegistryOK P → LintClean sub → RegistryOK sub → hasDot inst = false →
+      (∀ p ∈ sub.nodes, p.2.ty.isSome = true ∧ p.2.out.isSome = true) →
+      (∀ n ∈ sub.outputs, sub.ty? n ≠ some "bb_input" ∧ sub.ty? n ≠ some "bb_output") →
+      (∀ n ∈ sub.outputs, n ∉ sub.inputs) →
+      P.fillBlackbox inst sub ord = (P', .ok) → lint P' {} ord' = Outcome.ok) :=
+  LintProdECex.fill_blackbox_passes_lint_false
+
+/-- the two missing hypotheses: every dotted node of the parent named after the filled instance is one of its declared
+    pins … -/
+def DotsArePinsOf (P : Circuit) (inst : Name) : Prop :=
+  ∀ bb, P.bbs.lookup inst = some bb → ∀ g ∈ P.nodeNames, hasDot g = true → dotPrefix g = inst →
+    ∃ p ∈ bb.outs ++ bb.ins, g = inst ++ "." ++ p
+/-- … and no other recorded instance claims a pin node of the filled instance (true when the other instance names are
+    dot-free: `LintProdE.pinsNotShared_of_nodot`) -/
+def PinsNotShared (P : Circuit) (inst : Name) : Prop :=
+  ∀ bb, P.bbs.lookup inst = some bb → ∀ q ∈ P.bbs, q.1 ≠ inst → ∀ g ∈ q.2.ins ++ q.2.outs, ∀ p ∈ bb.ins ++ bb.outs,
+    q.1 ++ "." ++ g ≠ inst ++ "." ++ p
+
+/-- glue: these are the predicates of the helper files -/
+theorem dotsArePinsOf_eq : @DotsArePinsOf = @LintProdE.DotsArePinsOf := rfl
+theorem pinsNotShared_eq : @PinsNotShared = @LintProdE.PinsNotShared := rfl
+
+/-- **C20 (second half, fill_blackbox), corrected.** filling an instance of a lint-clean parent with a lint-clean child
+    (whose outputs are not blackbox pins of its own: K22) gives a circuit that passes lint, when the dotted nodes named
+    after the instance are exactly its pins and no other instance shares them (`hio` of the original is not needed) … -/
+theorem fill_blackbox_passes_lint_fixed (P sub P' : Circuit) (inst : Name) (ord ord' : Ord) (hord : OrdOK ord)
+    (hord' : OrdOK ord') (hP : LintClean P) (hrP : RegistryOK P) (hsub : LintClean sub) (hrsub : RegistryOK sub)
+    (hinst : hasDot inst = false)
+    (hfull : ∀ p ∈ sub.nodes, p.2.ty.isSome = true ∧ p.2.out.isSome = true)
+    (hpins : ∀ n ∈ sub.outputs, sub.ty? n ≠ some "bb_input" ∧ sub.ty? n ≠ some "bb_output")
+    (hdots : DotsArePinsOf P inst) (hshared : PinsNotShared P inst)
+    (h : P.fillBlackbox inst sub ord = (P', .ok)) :
+    lint P' {} ord' = Outcome.ok :=
+  LintProdE.fill_passes_lint P sub P' inst ord ord' hord hord' hP hrP hsub hrsub hinst hfull hpins hdots hshared h
+
+/-- … and these two conditions are exactly what is needed: under the remaining hypotheses and for a successful call, the
+    result passes lint if and only if they hold -/
+theorem fill_blackbox_passes_lint_iff (P sub P' : Circuit) (inst : Name) (ord ord' : Ord) (hord : OrdOK ord)
+    (hord' : OrdOK ord') (hP : LintClean P) (hrP : RegistryOK P) (hsub : LintClean sub) (hrsub : RegistryOK sub)
+    (hinst : hasDot inst = false)
+    (hfull : ∀ p ∈ sub.nodes, p.2.ty.isSome = true ∧ p.2.out.isSome = true)
+    (hpins : ∀ n ∈ sub.outputs, sub.ty? n ≠ some "bb_input" ∧ sub.ty? n ≠ some "bb_output")
+    (h : P.fillBlackbox inst sub ord = (P', .ok)) :
+    lint P' {} ord' = Outcome.ok ↔ DotsArePinsOf P inst ∧ PinsNotShared P inst :=
+  LintProdE.fill_passes_lint_iff P sub P' inst ord ord' hord hord' hP hrP hsub hrsub hinst hfull hpins h
+
+
+/-! ### readers -/
+
+/-- **C20 (second half, bench reader).** the circuit built for a well-formed bench netlist passes lint -/
+theorem bench_build_passes_lint (name : String) (ins : List Name) (gates : List (Name × String × List Name))
+    (dffs : List (Name × Name)) (outs : List Name) (hw : C15.WellFormed ins gates dffs outs) (ord : Ord) (hord : OrdOK ord) :
+    ∃ c, Bench.build name (C15.stmtsOf ins gates dffs outs) = .ok c ∧ lint c {} ord = Outcome.ok :=
+  LintProdF.build_passes_lint name ⟨hw.names, hw.defsNodup, hw.gateTy, hw.gateArity, hw.uses, hw.dffUses, hw.outsDef⟩
+    ord hord
+
+/-- **C20 (second half, bench round trip).** what the bench reader builds from the writer's statements for a writable circuit
+    passes lint -/
+theorem bench_roundtrip_passes_lint (c : Circuit) (ord ord' : Ord) (hord : OrdOK ord) (hord' : OrdOK ord') (hc : C15.Writable c) :
+    ∃ ss c', Bench.toStmts c ord = .ok ss ∧ Bench.build c.name ss = .ok c' ∧ lint c' {} ord' = Outcome.ok :=
+  LintProdF.roundtrip_passes_lint ⟨hc.clean, hc.nobb, hc.hasInput, hc.types, hc.names⟩ hord hord'
+
+/-! ### the Verilog readers -/
+
+/-- every input pin of a blackbox instance is connected (to a net or to a constant) -/
+def inPinsConnected (bbs : List BBox) : C14.RStmt → Bool
+  | .bb ty _ pins =>
+    match bbs.find? (fun b => b.name == ty) with
+    | some d => d.ins.all (fun g => pins.any (fun p => p.1 == g && p.2.isSome))
+    | none => true
+  | _ => true
+
+/-- no floating wires: every net that is read (gate operand, assign source, connected blackbox input pin) is an input or
+    is driven by some statement, and no blackbox input pin is left open (`.clk()` or not listed at all: both readers
+    create the pin node, and lint's default `undriven=True` rejects a `bb_input` without a driver, like the undriven
+    `buf` a floating wire becomes) -/
+def NoFloating (r : C14.RMod) (bbs : List BBox) : Prop :=
+  (∀ s ∈ r.stmts, ∀ n ∈ s.uses bbs, n ∈ r.inputs ∨ n ∈ r.stmts.flatMap (C14.RStmt.defs bbs)) ∧
+  (∀ s ∈ r.stmts, inPinsConnected bbs s = true)
+
+instance (r : C14.RMod) (bbs : List BBox) : Decidable (NoFloating r bbs) := by
+  unfold NoFloating; infer_instance
+
+/-- glue: the helper files state the predicate on their mirror of C14's vocabulary -/
+theorem driven_of_noFloating {r : C14.RMod} {bbs : List BBox} (hd : NoFloating r bbs) :
+    LintProdFV.Driven (C14.Glue.mod r) bbs := by
+  refine ⟨?_, ?_⟩
+  · intro s hs n hn
+    obtain ⟨s0, hs0, rfl⟩ := List.mem_map.1 hs
+    rw [C14.Glue.stmt_uses] at hn
+    show n ∈ r.inputs ∨ n ∈ (r.stmts.map C14.Glue.stmt).flatMap (FV.RStmt.defs bbs)
+    rw [C14.Glue.flatMap_stmts _ _ (C14.Glue.stmt_defs bbs)]
+    exact hd.1 s0 hs0 n hn
+  · intro ty inst pins hm d hdf g hg
+    obtain ⟨s0, hs0, e⟩ := List.mem_map.1 hm
+    have hc := hd.2 s0 hs0
+    cases s0 with
+    | gate ty' inst' out ops => cases e
+    | assign l rr => cases e
+    | bb ty' inst' pins' =>
+      simp only [C14.Glue.stmt] at e
+      injection e with e1 e2 e3
+      subst e1 e2 e3
+      simp only [inPinsConnected, hdf, List.all_eq_true, List.any_eq_true, Bool.and_eq_true, beq_iff_eq] at hc
+      obtain ⟨p, hp, hp1, hp2⟩ := hc g hg
+      obtain ⟨o, ho⟩ := Option.isSome_iff_exists.1 hp2
+      exact ⟨C14.Glue.op o, List.mem_map.2 ⟨p, hp, by rw [← hp1, ho]; rfl⟩⟩
+
+/-- **C20 (second half, Verilog readers).** for a netlist of the restricted subset of C14 without floating wires, the fast
+    reader and the full reader both succeed and what they build passes lint, for every statement order, every
+    set-iteration order of either reader and every iteration order of lint -/
+theorem verilog_readers_pass_lint (r : C14.RMod) (bbs : List BBox) (ord ordIn ord' ord'' : Ord) (hord : OrdOK ord)
+    (hordIn : OrdOK ordIn) (hord' : OrdOK ord') (hord'' : OrdOK ord'') (h : C14.Restricted r bbs)
+    (hd : NoFloating r bbs) :
+    ∃ cf cv, FastVerilog.assemble r.toFParsed bbs ord ordIn = .ok cf ∧ Verilog.transform r.toModule bbs ord' = .ok cv ∧
+      lint cf {} ord'' = Outcome.ok ∧ lint cv {} ord'' = Outcome.ok := by
+  have key := LintProdFV.readers_pass_lint (C14.Glue.restricted h) (driven_of_noFloating hd) ord ordIn ord' ord''
+    hord hordIn hord' hord''
+  rw [C14.Glue.toFParsed, C14.Glue.toModule] at key
+  exact key
+
+/-! non-vacuity: `C14.ex` with its clock pin connected (a constant on `d` of a second flop, an assign, use before
+    definition); `C14.ex` itself leaves `u.clk` open, is not `NoFloating`, and is rejected by lint -/
+def exV : C14.RMod :=
+  { name := "top", inputs := ["a", "b", "ck"], outputs := ["o", "q"],
+    stmts := [.gate "nand" "g_1" "o" [.net "w", .net "b", .c1],
+              .bb "ff" "u" [("clk", some (.net "ck")), ("d", some (.net "o")), ("q", some (.net "q"))],
+              .bb "ff" "u2" [("clk", some (.net "ck")), ("d", some .c0), ("q", none)],
+              .assign "w" (.net "a")] }
+example : NoFloating exV [C14.exBB] := by decide +kernel
+example : ¬ NoFloating C14.ex [C14.exBB] := by decide +kernel
+example : ¬ NoFloating C14.exF [C14.exBB] := by decide +kernel
+example : ((FastVerilog.assemble exV.toFParsed [C14.exBB] id id).toOption.map (fun c => (c.nodes.length, lint c {} id)),
+    (Verilog.transform exV.toModule [C14.exBB] id).toOption.map (fun c => (c.nodes.length, lint c {} id)),
+    (FastVerilog.assemble C14.ex.toFParsed [C14.exBB] id id).toOption.map (fun c => lint c {} id)) =
+    (some (14, Outcome.ok), some (14, Outcome.ok), some Outcome.valueError) := by
+  decide +kernel
 
 
 /-! non-vacuity: the hypotheses of the producer theorems are satisfiable (the example circuits of C09/C10/C11/C05) -/
